@@ -391,6 +391,23 @@ GROUPS = {
              "  | true => cases hv : validator dflt <;> stateobj_eval"),
         ],
     },
+    "stateinit": {
+        "import": "Haiway.Bridge.StateInit", "open": "Haiway.MiniPy Haiway.Bridge.StateInit",
+        "defs": {
+            name: Target("src/haiway/state/structure.py", "State", "__init__", ["kwargs"], {},
+                         {("object", "__setattr__"): (232, ["@1", "@2"])}, containers={"kwargs"},
+                         method_externals={"validated": (231, ["$recv", "@0"])}, globals_={"MISSING": "(Val.obj 900)"},
+                         expr_externals={"self.__ATTRIBUTES__.items()": (230, [])}, part="for." + part)
+            for name, part in (("gInitBody", "body"), ("gInit", "whole"))
+        },
+        "obligations": [
+            ("init_step", ["gInitBody"], "StepOK gInitBody {gInitBody.$loopvar}",
+             "intro kw n a st hk ht\n  unfold gInitBody\n"
+             "  rcases hv : st.world.validate a ((assocGet kw n).getD theMissing) with v | e <;> stateinit_eval"),
+            ("init_refines", ["gInitBody", "gInit"], "InitRefines gInit",
+             "exact init_of_step (body := gInitBody) rfl (by intro st; stateinit_eval) init_step (by decide)"),
+        ],
+    },
     "completion": {
         "import": "Haiway.Bridge.Completion", "open": "Haiway.MiniPy Haiway.Bridge.Completion",
         "defs": {
